@@ -3,6 +3,7 @@ import Ubx.Model.Sources
 import Ubx.Model.Helpers
 import Ubx.Generated.Tables
 import Ubx.Model.PyHosts
+import Ubx.Model.PyReaderHosts
 /-!
 # Line-protocol driver: one operation per input line, one answer per output line.
 The Python harness (tools/harness) sends the same operations to the real pyubx2 and diffs.
@@ -223,6 +224,61 @@ def excStr {ω : Type} : Py.V ω → String
 
 def pylHelper : Py.Host Empty Unit := Py.helperHost (Py.globLookup Gen.Code.globals)
 
+/-! ### `pyl-readp`: the translated reader (`__next__` → `read` → `_parse_*` / `_do_error`) *run* under PyLite -/
+
+def nmeaErrNames : List Name := ["NMEAMessageError", "NMEATypeError", "NMEAParseError", "NMEAStreamError"].map nm
+def rtcmErrNames : List Name := ["RTCMMessageError", "RTCMParseError", "RTCMStreamError", "RTCMTypeError"].map nm
+
+def pylRej : Proto → Nat → Name
+  | .ubx, c => Py.excName (Exc.ofCode c)
+  | .nmea, c => nmeaErrNames.getD c (nm "ForeignNmeaError")
+  | .rtcm, c => rtcmErrNames.getD c (nm "ForeignRtcmError")
+
+def pylCrash : Proto → Nat → Name
+  | .ubx, _ => nm "CrashUbx"
+  | .nmea, _ => nm "CrashNmea"
+  | .rtcm, _ => nm "CrashRtcm"
+
+def excToken (c : Name) (_a : Nat) : String :=
+  match nmeaErrNames.idxOf? c with
+  | some i => s!"N{i}"
+  | none =>
+    match rtcmErrNames.idxOf? c with
+    | some i => s!"R{i}"
+    | none => nameStr c
+
+def pylDrain {σ : Type} (E : Py.REnv σ String) (F : Nat) : Nat → Py.RSt σ → List String → List String × String × Py.RSt σ
+  | 0, st, acc => (acc.reverse, "pyl-budget", st)
+  | n+1, st, acc =>
+    match Py.runFn (Py.h3 E F) F Gen.Code.fn_UBXReader___next__ [.host .self] st with
+    | (.ok (.tuple [.bytes raw, p]), st') =>
+      let proto := match raw.head? with
+        | some 0xb5 => "ubx" | some 0x24 => "nmea" | some 0xd3 => "rtcm" | _ => "?"
+      let ps := match p with
+        | .none => "None"
+        | .host (.parsed m) => m
+        | _ => "pyl-bad-parsed"
+      pylDrain E F n st' (s!"{proto}:{hexOf raw}:{ps}" :: acc)
+    | (.ok _, st') => (acc.reverse, "pyl-bad-value", st')
+    | (.error (.exc c a), st') =>
+      if c = Py.xStopIteration then (acc.reverse, "", st')
+      else if c = nm "CrashUbx" then (acc.reverse, s!"crashed=ubx:{a}", st')
+      else if c = nm "CrashNmea" then (acc.reverse, s!"crashed=nmea:{a}", st')
+      else if c = nm "CrashRtcm" then (acc.reverse, s!"crashed=rtcm:{a}", st')
+      else if Py.excName .ubxParse = c || Py.excName .ubxMessage = c || Py.excName .ubxType = c || Py.excName .ubxStream = c
+              || nmeaErrNames.contains c || rtcmErrNames.contains c then (acc.reverse, s!"raised={excToken c a}", st')
+      else (acc.reverse, s!"pyl-error:{nameStr c}", st')
+    | (.error _, st') => (acc.reverse, "pyl-error:non-exception", st')
+
+def pylReadp {σ : Type} (S : Src σ) (s0 : σ) (cfg : RCfg) (O : Oracle String) (q : Nat) (budget : Nat) : String :=
+  let E : Py.REnv σ String := { S := S, cfg := cfg, O := O, q := q, hasHandler := true, rej := pylRej, crash := pylCrash }
+  let (items, fin, st) := pylDrain E budget budget ⟨some s0, []⟩ []
+  let calls := ",".intercalate (st.calls.map (fun ca => excToken ca.1 ca.2))
+  let raised := if fin.startsWith "raised=" then (fin.drop 7).toString else "none"
+  let crashed := if fin.startsWith "crashed=" then (fin.drop 8).toString else if fin = "" || fin.startsWith "raised=" then "none" else fin
+  s!"items=[{" ".intercalate items}] calls=[{calls}] raised={raised} crashed={crashed}"
+
+
 def handlePyl (toks : List String) : String :=
   match toks with
   | ["pyl-cksum", h] =>
@@ -256,6 +312,17 @@ def handlePyl (toks : List String) : String :=
        (match (Py.runFn (Py.parseHost Gen.ctx) pylFuel Gen.Code.fn_UBXReader_parse
                 [.bytes b, .int (toNatD mode), .int (toNatD val), .bool (bf = "1")] ()).1 with
         | .ok (.host m) => resDump (.ok m) | .ok _ => "bad-value" | .error e => excStr e)
+     | none => "bad-op")
+  | "pyl-readp" :: src :: q :: filter :: parsing :: mode :: val :: bf :: h :: verdicts =>
+    (match unhex h with
+     | some s =>
+       let cfg : RCfg := ⟨toNatD filter, parsing = "1"⟩
+       let O := mkOracle (toNatD mode) (toNatD val) (bf = "1") (parseVerdicts verdicts)
+       let budget := s.length + 3
+       if src = "file" then pylReadp fileSrc s cfg O (toNatD q) budget
+       else
+         let lens := (((src.drop 5).toString.replace "!" "").splitOn ",").filter (· ≠ "") |>.map toNatD
+         pylReadp sockSrc (sockInit (splitChunks s lens)) cfg O (toNatD q) budget
      | none => "bad-op")
   | _ => "bad-op"
 
